@@ -1,3 +1,5 @@
+pub mod c01;
+pub mod c02;
 pub mod c03;
 pub mod c04;
 pub mod c05;
@@ -16,6 +18,8 @@ use crate::util::{Params, Report};
 
 pub fn dispatch(prop: &str, p: &Params) -> Option<Report> {
     Some(match prop {
+        "C01" => c01::run(p),
+        "C02" => c02::run(p),
         "C03" => c03::run(p),
         "C04" => c04::run_c04(p),
         "C13" => c04::run_c13(p),
